@@ -24,7 +24,7 @@ pub const KINDS: [&str; 19] = [
 ];
 pub const GRAPHS: [&str; 5] = ["chain", "diamond", "fan", "triangle", "triangle-rev"];
 
-fn graph(name: &str) -> Vec<(&'static str, Vec<&'static str>)> {
+pub(crate) fn graph(name: &str) -> Vec<(&'static str, Vec<&'static str>)> {
     match name {
         "chain" => vec![("Main", vec!["A"]), ("A", vec!["B"]), ("B", vec![])],
         "diamond" => vec![("Main", vec!["A", "B"]), ("A", vec!["C"]), ("B", vec!["C"]), ("C", vec![])],
@@ -37,7 +37,7 @@ fn graph(name: &str) -> Vec<(&'static str, Vec<&'static str>)> {
 }
 
 /// variant: 0 = v0, 1 = body-only edit, 2 = interface-changing edit of `kind`
-fn lib_source(l: &str, deps: &[&str], variant: u8, kind: &str, indirect: bool) -> String {
+pub(crate) fn lib_source(l: &str, deps: &[&str], variant: u8, kind: &str, indirect: bool) -> String {
     let k = if variant == 1 { 20 } else { 10 };
     let iface = variant == 2;
     let mut s = format!("package {}\n", l);
@@ -141,7 +141,7 @@ fn lib_source(l: &str, deps: &[&str], variant: u8, kind: &str, indirect: bool) -
 
 /// `indirect`: (package imported by Main, package it imports that Main does not) - Main reads a field of a
 /// struct of the second that a function of the first hands on
-fn main_source(deps: &[&str], indirect: &[(String, String)]) -> String {
+pub(crate) fn main_source(deps: &[&str], indirect: &[(String, String)]) -> String {
     let mut s = String::from("package Main\n");
     for d in deps {
         s.push_str(&format!("import {}\n", d));
